@@ -34,8 +34,9 @@ V(k, a, b, msg) == [k |-> k, a |-> a, b |-> b, msg |-> msg]
 
 \* field types: int, std::string, std::optional<int>, std::vector<int>, std::vector<std::string>,
 \* std::map<std::string,int>, a nested object {x:int}
-Types == {"int", "str", "optint", "vecint", "vecstr", "mapint", "obj"}
-Sized == {"str", "vecint", "vecstr", "mapint"}           \* types with size()
+\* "wstr" = std::u16string (its document value is the sequence of its code points)
+Types == {"int", "str", "wstr", "optint", "vecint", "vecstr", "mapint", "obj"}
+Sized == {"str", "wstr", "vecint", "vecstr", "mapint"}   \* types with size()
 
 \* which validators can be attached to which field type (C++: Range<int> on int, size() for MinSize/MaxSize,
 \* string_view for Email/PhoneNumber; the scenario's lambda exists for numbers, strings and the nested object)
@@ -44,7 +45,7 @@ Applicable(v, t) ==
     [] v.k = "custom" -> t \in {"int", "optint", "str", "obj"}
     [] v.k = "range" -> t = "int"
     [] v.k \in {"minsize", "maxsize"} -> t \in Sized
-    [] v.k \in {"email", "phone", "phonenp"} -> t = "str"
+    [] v.k \in {"email", "phone", "phonenp"} -> t \in {"str", "wstr"}
 
 -----------------------------------------------------------------------------
 (* Documents.  doc of a field: <<"int", n>> | <<"str", s>> | <<"ints", <<n..>>>> | <<"strs", <<s..>>>> |       *)
@@ -52,7 +53,7 @@ Applicable(v, t) ==
 (* A value of another kind than the field's type (a string for a number, a number for a string or a container)    *)
 (* is mismatched: skipped = not loaded with MismatchedTypesPolicy::Skip, SerializationException(MismatchedTypes)   *)
 (* with the default policy ThrowError.  null and absent are "not loaded" under both policies.                      *)
-KindOf(t) == CASE t \in {"int", "optint"} -> "int" [] t = "str" -> "str" [] t = "vecint" -> "ints" [] t = "vecstr" -> "strs"
+KindOf(t) == CASE t \in {"int", "optint"} -> "int" [] t = "str" -> "str" [] t = "wstr" -> "wstr" [] t = "vecint" -> "ints" [] t = "vecstr" -> "strs"
                [] t = "mapint" -> "imap" [] t = "obj" -> "obj"
 IsLoaded(t, doc) == doc[1] = KindOf(t)
 IsMismatch(t, doc) == doc[1] \notin {"absent", "null", KindOf(t)}
@@ -62,6 +63,7 @@ Size(doc) == Len(doc[2])                                  \* size() of a loaded 
 LoadedValue(t, doc) == IF t = "optint" THEN <<"some", doc[2]>> ELSE doc
 PriorValue(t) ==
   CASE t = "int" -> <<"int", 77>> [] t = "str" -> <<"str", "prior">> [] t = "optint" -> <<"none">>
+    [] t = "wstr" -> <<"wstr", <<112, 114, 105, 111, 114>>>>
     [] t = "vecint" -> <<"ints", <<>>>> [] t = "vecstr" -> <<"strs", <<>>>> [] t = "mapint" -> <<"imap", <<>>>> [] t = "obj" -> <<"obj", 77>>
 
 -----------------------------------------------------------------------------
@@ -114,11 +116,30 @@ PhoneExamples == {"+555 (55) 555-55-55", "+44 20 7123 1234", "+1 (555) 555-55-55
                   "+1 (555) 555-5555-", "+1 (555) -555-55-55", "+1 (-555) 555-55-55", "+1 (555-) 555-55-55", "*1 (555) 555-55-55",
                   "1 (555) 555-55-55$", "1 (555) 555-55=55"}
 
+\* Wide strings (std::u16string fields).  The address / number is the code-point sequence of a documented ASCII example,
+\* or that example with ONE character replaced by a non-ASCII character (c + 0x100, c + 0x400: same low byte).  The README:
+\* the Email validator does not support SMTPUTF8, i.e. an address with a non-ASCII character is invalid; a phone number
+\* with a character that is neither digit, space, dash, parenthesis nor the leading plus "contains invalid characters".
+WSimple  == <<115, 105, 109, 112, 108, 101, 64, 101, 120, 97, 109, 112, 108, 101, 46, 99, 111, 109>>                   \* simple@example.com
+WAdmin10 == <<97, 100, 109, 105, 110, 64, 101, 120, 97, 109, 112, 108, 101, 49, 48, 46, 99, 111, 109>>                  \* admin@example10.com
+WBestEx  == <<97, 100, 109, 105, 110, 64, 98, 101, 115, 116, 45, 101, 120, 97, 109, 112, 108, 101, 46, 99, 111, 109>>   \* admin@best-example.com
+WDigits  == <<48, 49, 50, 51, 52, 53, 54, 55, 56, 57, 64, 101, 120, 97, 109, 112, 108, 101, 46, 99, 111, 109>>          \* 0123456789@example.com
+WPhone1  == <<43, 53, 53, 53, 32, 40, 53, 53, 41, 32, 53, 53, 53, 45, 53, 53, 45, 53, 53>>                              \* +555 (55) 555-55-55
+Alias(w, pos, off) == [w EXCEPT ![pos] = @ + off]
+WEmailValid == {WSimple, WAdmin10, WBestEx, WDigits}
+\* aliased positions: first / last character of the local part, '@', first domain character, '.', last character;
+\* a digit of the domain; the hyphen; a digit of the local part
+WAliasOf(w, ps) == { Alias(w, p, off) : p \in ps, off \in {256, 1024} }
+WEmailInvalid == WAliasOf(WSimple, {1, 6, 7, 8, 15, 18}) \cup WAliasOf(WAdmin10, {14}) \cup WAliasOf(WBestEx, {11}) \cup WAliasOf(WDigits, {1, 10})
+WPhoneExamples == {WPhone1} \cup WAliasOf(WPhone1, {2, 7, 13, 19})
+\* (position 7 is inside the parentheses: the loop stops there with the parenthesis still open)
+WPhoneFacts(w) == IF w = WPhone1 THEN PhF(12, TRUE, "", FALSE) ELSE PhF(0, TRUE, PhChars, w \in WAliasOf(WPhone1, {7}))
+
 \* "" = passes, otherwise the default message (texts and their precedence transcribed from validators.h: an open
 \* parenthesis wins over the missing plus, which wins over the error of the character loop; the number of digits is
 \* examined only for a well-formed number; one text for min = max, another for min < max)
-PhoneVerdict(v, s) ==
-  LET f == PhoneFacts(s) IN
+PhoneVerdict(v, t, s) ==
+  LET f == IF t = "wstr" THEN WPhoneFacts(s) ELSE PhoneFacts(s) IN
   IF f.open THEN "Invalid phone number (missing closing parenthesis)"
   ELSE IF v.k = "phone" /\ ~f.plus THEN "Invalid phone number (missing initial `+`)"
   ELSE IF f.err # "" THEN f.err
@@ -134,8 +155,8 @@ WithSpace == {"a b", "first last@example.com", "smith 2000@mail.com", "john_doe@
 \* is the verdict of validator v on document value doc stated by the documentation?
 InScopeV(v, t, doc) ==
   IF ~IsLoaded(t, doc) THEN TRUE
-  ELSE IF v.k = "email" THEN doc[2] \in EmailValid \cup EmailInvalid
-  ELSE IF v.k \in {"phone", "phonenp"} THEN doc[2] \in PhoneExamples
+  ELSE IF v.k = "email" THEN (IF t = "wstr" THEN doc[2] \in WEmailValid \cup WEmailInvalid ELSE doc[2] \in EmailValid \cup EmailInvalid)
+  ELSE IF v.k \in {"phone", "phonenp"} THEN (IF t = "wstr" THEN doc[2] \in WPhoneExamples ELSE doc[2] \in PhoneExamples)
   ELSE TRUE
 
 -----------------------------------------------------------------------------
@@ -146,8 +167,8 @@ Fails(v, t, doc) ==
     [] v.k = "range"   -> L /\ (doc[2] < v.a \/ doc[2] > v.b)             \* inclusive, passes when not loaded
     [] v.k = "minsize" -> L /\ Size(doc) < v.a                          \* strings and containers alike
     [] v.k = "maxsize" -> L /\ Size(doc) > v.a
-    [] v.k = "email"   -> L /\ doc[2] \in EmailInvalid
-    [] v.k \in {"phone", "phonenp"} -> L /\ PhoneVerdict(v, doc[2]) # ""
+    [] v.k = "email"   -> L /\ (IF t = "wstr" THEN doc[2] \in WEmailInvalid ELSE doc[2] \in EmailInvalid)
+    [] v.k \in {"phone", "phonenp"} -> L /\ PhoneVerdict(v, t, doc[2]) # ""
     [] v.k = "custom"  -> L /\ (IF t = "str" THEN doc[2] \in WithSpace ELSE (doc[2] % 2) # 0)   \* the scenario's lambda
 
 DefaultMsg(v, t, doc) ==
@@ -156,7 +177,7 @@ DefaultMsg(v, t, doc) ==
     [] v.k = "minsize" -> "The minimum size of this field should be " \o ToString(v.a)
     [] v.k = "maxsize" -> "The maximum size of this field should be not greater than " \o ToString(v.a)
     [] v.k = "email"   -> "Invalid email address"
-    [] v.k \in {"phone", "phonenp"} -> PhoneVerdict(v, doc[2])
+    [] v.k \in {"phone", "phonenp"} -> PhoneVerdict(v, t, doc[2])
     [] v.k = "custom"  -> IF t = "str" THEN "The field must not contain spaces" ELSE "The value must be even"
 
 Msg(v, t, doc) == IF v.msg # "" THEN v.msg ELSE DefaultMsg(v, t, doc)
@@ -178,12 +199,13 @@ FailMsgs(f) == FailMsgsFrom(f, 1)
 (*  map     : root object with member "m" = map "k1".."k<nel>" -> object         /m/k<i>/key             *)
 (*  rootarr : the root is an array of nel objects (the only shape of CSV)        /<i>/key                *)
 (* All elements of a container carry the same fields and statuses.                                          *)
-Places == {"flat", "nested", "arr", "map", "rootarr"}
+(*  attr    : XML only - the fields are ATTRIBUTES of the root element (AttributeValue)  /root/key          *)
+Places == {"flat", "nested", "arr", "map", "rootarr", "attr"}
 IsArrayPlace(p) == p \in {"arr", "rootarr"}
 
 Idx(i) == "#" \o ToString(i)          \* an array position inside an abstract path
 ElemComps(s, e) ==
-  CASE s.place = "flat"    -> <<>>
+  CASE s.place \in {"flat", "attr"} -> <<>>
     [] s.place = "nested"  -> <<"n">>
     [] s.place = "arr"     -> <<"arr", Idx(e)>>
     [] s.place = "map"     -> <<"m", "k" \o ToString(e)>>
@@ -375,8 +397,8 @@ ObsGarbled(s, inst, r) == [exc |-> IF r.mm THEN <<"ser", "Mismatched types">> EL
 (*    "fields" counted against the cap is not defined when the cap is not reached inside the first element          *)
 Archs(s) ==
   LET F(k) == s.fields[k]
-      strMis == \E k \in 1..NF(s) : F(k).t = "str" /\ F(k).doc[1] = "int"
-      strNull == \E k \in 1..NF(s) : F(k).t = "str" /\ F(k).doc[1] = "null"
+      strMis == \E k \in 1..NF(s) : F(k).t \in {"str", "wstr"} /\ F(k).doc[1] = "int"
+      strNull == \E k \in 1..NF(s) : F(k).t \in {"str", "wstr"} /\ F(k).doc[1] = "null"
       allAbsent == \A k \in 1..NF(s) : F(k).doc[1] = "absent"
       structured == \E k \in 1..NF(s) : F(k).t \in {"vecint", "vecstr", "mapint", "obj"}          \* CSV holds flat records only
       \* XML has no null: nullptr is written as an empty element, which is an (empty) VALUE - for a container or object
@@ -384,7 +406,8 @@ Archs(s) ==
       xmlNoNull == s.pol = "throw" /\ \E k \in 1..NF(s) : F(k).t \in {"vecint", "vecstr", "mapint", "obj"} /\ F(k).doc[1] = "null"
       failPerElem == Cardinality({k \in 1..NF(s) : FailMsgs(F(k)) # <<>>})
       xmlAmbiguous == IsArrayPlace(s.place) /\ s.nel > 1 /\ s.cap > 0 /\ failPerElem > 0 /\ failPerElem < s.cap
-  IN {"json", "msgpack"}
+  IN IF s.place = "attr" THEN {"xml"} ELSE
+     {"json", "msgpack"}
      \cup (IF ~strMis /\ ~xmlAmbiguous /\ ~xmlNoNull /\ ~(allAbsent /\ s.place # "flat") THEN {"xml"} ELSE {})
      \cup (IF s.place = "rootarr" /\ ~strMis /\ ~strNull /\ ~allAbsent /\ ~structured THEN {"csv"} ELSE {})
 =============================================================================
